@@ -165,6 +165,16 @@ def extract_syntax():
             else:
                 errs.append(f"grammar.pest {r}: unrecognised alternative {alt!r}")
         spell[r] = alts
+    # boolean literal rule: case-sensitive words with the keyword boundary look-ahead
+    bool_words = []
+    if "boolean" in shapes:
+        m = re.fullmatch(r'\((.*?)\) ~ !\(LETTER \| NUMBER \| "_"\)', shapes["boolean"][1])
+        if not m or shapes["boolean"][0] != "@" or "^" in m.group(1):
+            errs.append("grammar.pest boolean: expected @{ (\"true\" | \"false\") ~ !(LETTER | NUMBER | \"_\") }, found " + shapes["boolean"][1])
+        else:
+            bool_words = re.findall(r'"([^"]+)"', m.group(1))
+            if sorted(bool_words) != ["false", "true"]:
+                errs.append("grammar.pest boolean words: " + str(bool_words))
     if errs:
         print("extractor could not re-read: " + "; ".join(errs))
         return 1
@@ -187,6 +197,8 @@ def extract_syntax():
     t += "/-- spellings of the operator rules: (rule, kind, text); kind `word` carries the boundary look-ahead -/\n"
     t += "def opSpellings : List (String × String × String) :=\n  [" + ",\n   ".join(
         f"({lstr(r)}, {lstr(k)}, {lstr(s)})" for r in spell for k, s in spell[r]) + "]\n"
+    t += "/-- words of the `boolean` rule (case-sensitive, followed by the boundary look-ahead `!(LETTER | NUMBER | \"_\")`) -/\n"
+    t += "def booleanWords : List String := [" + ", ".join(lstr(k) for k in bool_words) + "]\n"
     for nm, rule in [("binaryOpAlts", "binary_op"), ("unaryOpAlts", "unary_op"), ("expLeafAlts", "exp_leaf")]:
         t += f"/-- ordered alternatives of `{rule}` -/\n"
         t += f"def {nm} : List String := [" + ", ".join(lstr(a) for a in top_alternatives(shapes[rule][1])) + "]\n"
